@@ -50,6 +50,47 @@ CLAIMED.update({
               "the repair.",
               "The external store's conditional writes are trusted; the DynamoDB implementation (feature off) is not analysed.",
               "DESIGN.md 3 C10"),
+    "C06": _c("other", "value-origin analysis of new file names + inventory of destructive store calls",
+              "Every new deletion file id, data-file name, index directory and transaction file name originates from a random / uuid "
+              "source, and the set of workspace functions (outside the store-wrapper layer) that delete, rename, copy over or remove "
+              "directories equals a reviewed table, each entry with the reason it cannot touch a file a published version references.",
+              "Equality of scans over time is not decided; C02 (manifests never change) and C08 (cleanup) are prerequisites decided there.",
+              "DESIGN.md 3 C06"),
+    "C08": _c("proof", "finite success-path abstract interpretation of the cleanup decision functions + dominance",
+              "path_if_not_referenced is interpreted for every combination of path class, extension, maybe_in_progress, uuid presence "
+              "and referenced/verified set answers (all paths enumerated): a path is returned for deletion only if its class's referenced "
+              "set was consulted and does not contain it and it is verified or not possibly in progress; process_manifest_file's working-set "
+              "flag and old-manifest decision are interpreted over all (is_latest, should_clean, is_tagged); process_manifest collects "
+              "every referenced file kind into the right set; should_clean is the conjunction of the configured bounds; inspection "
+              "precedes deletion and read errors propagate; the in-progress guard and its 7-day threshold are wired as documented.",
+              "Success-path interpretation: opaque calls succeed, each loop body is walked once; races and clocks are not decided.",
+              "DESIGN.md 3 C08"),
+    "C09": _c("other", "validator dominance + record origin analysis + interpreted validators",
+              "In every public Tags/Branches method the validator of the operated name succeeds before the first store call; the "
+              "record written carries the method's own branch/version parameters at the path of the validated name; the referenced "
+              "manifest's existence gates the put; create never overwrites, update requires presence; branch delete removes the record "
+              "before directories obtained from get_cleanup_path; the validators reject separator/traversal names (interpreted on "
+              "constants).",
+              "Name grammar exactness and the prefix arithmetic of get_cleanup_path are value-level (a defect there was found by reading "
+              "and repaired); cross-branch read isolation is not decided.", "DESIGN.md 3 C09"),
+    "C19": _c("proof", "finite abstract interpretation of the planner's combination functions",
+              "C21's tables plus: maybe_not / maybe_or / and / needs_recheck interpreted over all shapes (negation refused for inexact "
+              "or mixed results, OR refused with refine parts, recheck = disjunction over leaves); SargableQueryParser returns None "
+              "whenever a literal is NULL, each literal tested; exact indices build their parser with needs_recheck=false and only "
+              "construct SearchResult::Exact.",
+              "Index contents, remap/update histories and literal coercion are not decided.", "DESIGN.md 3 C19"),
+    "C20": _c("other", "result-kind inventory + enum-arm analysis of the consumers",
+              "Inexact indices construct only AtMost (n-gram additionally Exact/AtLeast of a fresh empty set), their parsers demand and "
+              "propagate needs_recheck, FilteredReadExec applies the full filter unless the result is Exact (or AtLeast under limit "
+              "push-down), rows outside the mask are skipped only for result kinds that bound the answer from above, and the scanner "
+              "plans a post-index filter whenever a recheck is needed.",
+              "That zone statistics / bloom bits / trigram postings are supersets is not decided.", "DESIGN.md 3 C20"),
+    "C32": _c("other", "field-coverage (COVER) analysis of every protobuf conversion",
+              "For every domain<->protobuf conversion discovered in the format/transaction/MemWAL/frag-reuse/row-id modules: encode reads "
+              "every domain field (per Operation variant inside its arm), every stored field is derived from the source (data flow, "
+              "out-parameters or a match on the source) except reviewed legacy slots, decode derives every domain field from the message "
+              "and can produce every Operation variant; enum tables are inverse by interpretation.",
+              "Byte-level encodings and nested values inside carried fields are not decided.", "DESIGN.md 3 C32"),
     "C02": _c("other", "MIR dominance / origin / enum-arm analysis per commit handler",
               "Protocol shape of every CommitHandler::commit impl in the workspace, on every path of the function: "
               "PutMode::Create on the only write to the final path, staging+rename_if_not_exists, lock<head<write with the write only "
@@ -134,6 +175,12 @@ NOT_APPLICABLE = {
 
 # properties whose checks are designed (DESIGN.md) but not registered yet
 PENDING = {}
+# checks that exist but are held back from the manifest while a report on the unchanged tree is being triaged
+HOLD = {"C20": "check built; its report on the unchanged tree (AtLeast results in FilteredReadExec) is being reproduced before it is "
+               "either repaired or listed as a known finding; not claimed until then"}
+for _k in HOLD:
+    CLAIMED.pop(_k, None)
+    PENDING[_k] = HOLD[_k]
 
 
 def main():
